@@ -263,3 +263,86 @@ def check_conv(smt2, params, spec_):
         return {"status": "FAIL", "stats": stats, "detail": str(ex),
                 "replay_inputs": [str(x) for x in ([0] if nin == 1 else [M64, 1, qs[2] - 1, qs[3]] * (nin // 4))]}
     return {"status": "PASS", "stats": stats}
+
+
+# ------------------------------------------------------------------------------------------------- NTT end to end
+def check_ntt(smt2, params, spec_):
+    n, direction, qs, omegas = params["n"], params["dir"], params["primes"], params["omegas"]
+    M64 = (1 << 64) - 1
+    ranges = {("VF_X", i): (0, M64) for i in range(4 * n)}
+    t0 = time.time()
+    vc, dom, ins, outs = eval_int(smt2, ["VF_X"], "VF_OUT", ranges)
+    stats = {"vc_definitions": len(vc.defs), "bv_operations_interpreted": dom.nops, "atoms": len(dom.names), "n": n, "dir": direction,
+             "nowrap_obligations_discharged_by_intervals": dom.obl_ok, "nowrap_obligations_open": len(dom.open),
+             "max_output_bits": max(o.hi.bit_length() for o in outs.values()), "eval_s": round(time.time() - t0, 2)}
+    if len(outs) != 4 * n or len(ins) != 4 * n:
+        return {"status": "INCONCLUSIVE", "stats": stats, "detail": "expected %d lanes, found %d inputs / %d outputs" % (4 * n, len(ins), len(outs))}
+    allmax = [str(M64)] * (4 * n)
+    if dom.open:
+        return {"status": "FAIL", "stats": stats, "detail": "lazy arithmetic may exceed its word: " + "; ".join(dom.open[:3]), "replay_inputs": allmax}
+    inv = {a: key[1] for key, a in ins.items()}
+    exps = {}
+    for k in range(4):
+        q = qs[k]
+        w = pow(omegas[k], (1 << 16) // n, q)  # primitive 2n-th root of unity
+        if n > 1 and (pow(w, n, q) != q - 1):
+            return {"status": "INCONCLUSIVE", "stats": stats, "detail": "omega is not a primitive 2n-th root modulo %d" % q}
+        powidx = {pow(w, e, q): e for e in range(2 * n)}
+        ninv = pow(n, -1, q)
+        seen = set()
+        for p in range(n):
+            o = outs[4 * p + k]
+            coef = {}
+            for m, c in o.t.items():
+                c %= q
+                if not c:
+                    continue
+                if len(m) == 1 and m[0] in inv:
+                    idx = inv[m[0]]
+                    if idx % 4 != k:
+                        return {"status": "FAIL", "stats": stats, "replay_inputs": allmax,
+                                "detail": "output (%d, prime %d) depends on input lane %d of another prime" % (p, k, idx)}
+                    coef[idx // 4] = c
+                else:
+                    return {"status": "FAIL", "stats": stats, "replay_inputs": allmax,
+                            "detail": "output (%d, prime %d) is not congruent to a linear form of the inputs: residual monomial %s with coefficient %d mod q"
+                                      % (p, k, [dom.names[a] for a in m], c)}
+            if direction == 2:
+                if coef != {p: 1}:
+                    return {"status": "FAIL", "stats": stats, "replay_inputs": [str((i * 2654435761 + 12345) & M64) for i in range(4 * n)],
+                            "detail": "intt(ntt(x)) at position %d prime %d is %s, not x" % (p, k, dict(list(coef.items())[:4]))}
+                continue
+            # evaluation-map structure: coefficient of x_j is w^(e_p*j) (forward) resp. n^-1 * w^(-e_j*p)... checked per output row / column
+            if direction == 0:
+                c1 = coef.get(1, 0) if n > 1 else w
+                e = powidx.get(c1)
+                if coef.get(0, 0) != 1 or e is None or e % 2 == 0 or e in seen:
+                    return {"status": "FAIL", "stats": stats, "replay_inputs": [str((i * 2654435761 + 12345) & M64) for i in range(4 * n)],
+                            "detail": "forward output %d prime %d: coefficient of x_1 is not an unused odd power of omega" % (p, k)}
+                seen.add(e)
+                for j in range(n):
+                    if coef.get(j, 0) != pow(w, (e * j) % (2 * n), q):
+                        return {"status": "FAIL", "stats": stats, "replay_inputs": [str((i * 2654435761 + 12345) & M64) for i in range(4 * n)],
+                                "detail": "forward output %d prime %d: coefficient of x_%d is not omega^(%d*%d)" % (p, k, j, e, j)}
+                exps[(k, p)] = e
+            else:
+                # inverse: output p = n^-1 * sum_j y_j * w^(-e_j * p): each column j must be geometric in p with an odd exponent
+                pass
+        if direction == 1:
+            used = set()
+            for j in range(n):
+                col = [outs[4 * p + k].t.get((ins[("VF_X", 4 * j + k)],), 0) % q for p in range(n)]
+                if col[0] != ninv:
+                    return {"status": "FAIL", "stats": stats, "replay_inputs": allmax, "detail": "inverse: column %d prime %d does not start with n^-1" % (j, k)}
+                if n > 1:
+                    ratio = (col[1] * n) % q
+                    e = powidx.get(ratio)
+                    if e is None or e % 2 == 0 or e in used:
+                        return {"status": "FAIL", "stats": stats, "replay_inputs": allmax,
+                                "detail": "inverse: column %d prime %d is not n^-1 * (odd power of omega)^p with a fresh exponent" % (j, k)}
+                    used.add(e)
+                    for p in range(n):
+                        if col[p] != (ninv * pow(w, (e * p) % (2 * n), q)) % q:
+                            return {"status": "FAIL", "stats": stats, "replay_inputs": allmax, "detail": "inverse: column %d prime %d not geometric at row %d" % (j, k, p)}
+    stats["analysis_s"] = round(time.time() - t0, 2)
+    return {"status": "PASS", "stats": stats}
